@@ -2,14 +2,32 @@
    A case is an operator expression (literal tensors from the generated input) plus a list of queries,
    each with what the REAL operator returned; [bad_cases] lists the (case, query) pairs where the Gallina
    model (Model.v) computes something else.  Everything is exact in Z. *)
-From Coq Require Import List ZArith Lia Bool Arith.
+From Coq Require Import List ZArith Lia Bool Arith Uint63.
 Import ListNotations.
 Require Import C01.Sums C01.Batch C01.Tensor C01.OpExpr C01.Model C01.Covered.
 Open Scope Z_scope.
 
+(* ---- compact literals ---------------------------------------------------------------------------------
+   The shards write every tensor as flat row-major data in chunks of primitive 63-bit integers (two's complement for
+   negative entries): primitive integer literals elaborate about three times faster than nested lists of Z numerals,
+   and the elaboration of the literals dominates the compile time of a shard. *)
+Definition zi (x : int) : Z :=
+  let v := Uint63.to_Z x in if (v <? 4611686018427387904)%Z then v else (v - 9223372036854775808)%Z.
+
+(* n consecutive pieces of length k *)
+Fixpoint pieces_of {T} (n k : nat) (l : list T) : list (list T) :=
+  match n with O => [] | S n' => firstn k l :: pieces_of n' k (skipn k l) end.
+
+Definition untable (bs : shape) (r c : nat) (chunks : list (list int)) : table :=
+  map (fun m => pieces_of r c m) (pieces_of (bnumel bs) (r * c) (map zi (concat chunks))).
+
+Definition of_flat (bs : shape) (r c : nat) (chunks : list (list int)) : BT := of_table bs r c (untable bs r c chunks).
+
 (* what the implementation returned: a tensor (batch shape innermost-first, rows, cols, entries in
    torch's row-major order) or an exception *)
 Inductive obs := ObsT (bs : shape) (r c : nat) (t : table) | ObsErr.
+
+Definition ObsF (bs : shape) (r c : nat) (chunks : list (list int)) : obs := ObsT bs r c (untable bs r c chunks).
 
 Inductive query :=
 | QMatmul (X : BT)      (* op @ X / op.matmul(X); a 1-D rhs is given as its n x 1 matrix, the 1-D result as m x 1 *)
